@@ -455,6 +455,9 @@ func (h *verifWHist) appendEvents(n int) {
 		if h.fam == "clean" && (class == "malformed") {
 			class = "transfer"
 		}
+		if h.fam == "fields" && class == "malformed" && r.chance(2, 3) {
+			class = "transfer" // (the fields stage makes its own share of events unfit)
+		}
 		e := h.newEvent(b, tx, 0, class)
 		h.sim.log = append(h.sim.log, e)
 	}
